@@ -62,6 +62,12 @@ Fixpoint set_add (x : Z) (l : list Z) : list Z :=
   | y :: r => if x <? y then x :: y :: r else if x =? y then y :: r else y :: set_add x r
   end.
 
+(** HashSet<i32> insert / remove: the order of the list carries no meaning
+    (snapshots are printed sorted) *)
+Definition hs_add (x : Z) (l : list Z) : list Z := if memZ x l then l else x :: l.
+Definition hs_remove (x : Z) (l : list Z) : list Z := filter (fun y => negb (y =? x)) l.
+
+(** Vec::remove of the first occurrence *)
 Fixpoint set_remove (x : Z) (l : list Z) : list Z :=
   match l with [] => [] | y :: r => if y =? x then r else y :: set_remove x r end.
 
@@ -139,11 +145,11 @@ Fixpoint get_job_by_gid (t : table) (gid : Z) : option job :=
   end.
 
 Definition sh_mark_job_member_stopped (t : table) (pid gid : Z) : table * option job :=
-  let t' := upd_gid (fun j => mkjob (jid j) (jgid j) (jpids j) (set_add pid (jstopped j)) (jst j) (jbg j)) gid t in
+  let t' := upd_gid (fun j => mkjob (jid j) (jgid j) (jpids j) (hs_add pid (jstopped j)) (jst j) (jbg j)) gid t in
   (t', get_job_by_gid t' gid).
 
 Definition sh_mark_job_member_continued (t : table) (pid gid : Z) : table * option job :=
-  let t' := upd_gid (fun j => mkjob (jid j) (jgid j) (jpids j) (set_remove pid (jstopped j)) (jst j) (jbg j)) gid t in
+  let t' := upd_gid (fun j => mkjob (jid j) (jgid j) (jpids j) (hs_remove pid (jstopped j)) Running (jbg j)) gid t in
   (t', get_job_by_gid t' gid).
 
 Definition sh_mark_job_as_running (t : table) (gid : Z) (bg : bool) : table :=
@@ -170,8 +176,35 @@ Fixpoint remove_pid_from_job (t : table) (gid pid : Z) : table :=
       else j :: remove_pid_from_job r gid pid
   end.
 
+(** does remove_pid_from_job drop the job (its Some(job) result)? *)
+Fixpoint remove_drops (t : table) (gid pid : Z) : bool :=
+  match t with
+  | [] => false
+  | j :: r =>
+      if jgid j =? gid then
+        match (match position (jpids j) pid with
+               | Some i => remove_at i (jpids j)
+               | None => jpids j
+               end) with
+        | [] => true
+        | _ => false
+        end
+      else remove_drops r gid pid
+  end.
+
+Definition is_stopped (s : jstat) : bool := match s with Stopped => true | Running => false end.
+
 (** ---------- jobc.rs wrappers *)
-Definition mark_job_as_done (t : table) (gid pid : Z) : table := remove_pid_from_job t gid pid.
+(** mark_job_as_done: when the job lives on and every remaining member is
+    stopped, the job is marked Stopped (since /repo 2503a9b) *)
+Definition mark_job_as_done (t : table) (gid pid : Z) : table :=
+  let t' := remove_pid_from_job t gid pid in
+  if remove_drops t gid pid then t'
+  else match get_job_by_gid t' gid with
+       | Some job => if negb (is_stopped (jst job)) && all_members_stopped job
+                     then sh_mark_job_as_stopped t' gid else t'
+       | None => t'
+       end.
 
 (** note: the wrapper computes [_gid] (getpgid when gid == 0) but uses [gid] *)
 Definition mark_job_member_stopped (t : table) (pid gid : Z) : table :=
@@ -190,8 +223,9 @@ Definition mark_job_member_continued (t : table) (pid gid : Z) : table :=
 Definition park (m : maps) (e : ev) : maps :=
   match e with
   | Exited p s => mkmaps (map_put p s (m_reap m)) (m_stop m) (m_cont m) (m_kill m)
-  | StoppedE p _ => mkmaps (m_reap m) (set_add p (m_stop m)) (m_cont m) (m_kill m)
-  | Continued p => mkmaps (m_reap m) (m_stop m) (set_add p (m_cont m)) (m_kill m)
+  (* the later of a stop and a continue supersedes the other (since /repo ac20f13) *)
+  | StoppedE p _ => mkmaps (m_reap m) (hs_add p (m_stop m)) (hs_remove p (m_cont m)) (m_kill m)
+  | Continued p => mkmaps (m_reap m) (hs_remove p (m_stop m)) (hs_add p (m_cont m)) (m_kill m)
   | Signaled p s => mkmaps (m_reap m) (m_stop m) (m_cont m) (map_put p s (m_kill m))
   end.
 
@@ -204,18 +238,22 @@ Definition handle_sigchld (m : maps) (q : list ev) : maps := fold_left park q m.
     hook answers ECHILD and the loop breaks). *)
 Record wres := mkwres { w_sh : shell; w_status : Z; w_blocked : bool; w_left : list ev }.
 
+(** [settled]: members that have exited / been killed or are currently
+    stopped (since /repo 1687e77; a counter of events before) *)
 Fixpoint wait_loop (q : list ev) (s : shell) (gid : Z) (pids : list Z) (pid_last : Z)
-         (count_child count_waited : nat) (status : Z) : wres :=
+         (count_child : nat) (settled : list Z) (status : Z) : wres :=
   match q with
   | [] => mkwres s status true []
   | e :: q' =>
       let pid := ev_pid e in
       let is_fg := memZ pid pids in
-      let count_waited := if is_fg && negb (is_cont e) then S count_waited else count_waited in
+      let settled := if is_fg then (if is_cont e then hs_remove pid settled else hs_add pid settled)
+                     else settled in
       match e with
       | Continued _ =>
-          let s := if is_fg then s else mksh (tab s) (park (mp s) e) in
-          wait_loop q' s gid pids pid_last count_child count_waited status
+          let s := if is_fg then mksh (fst (sh_mark_job_member_continued (tab s) pid gid)) (mp s)
+                   else mksh (tab s) (park (mp s) e) in
+          wait_loop q' s gid pids pid_last count_child settled status
       | _ =>
           let s :=
             match e with
@@ -228,15 +266,15 @@ Fixpoint wait_loop (q : list ev) (s : shell) (gid : Z) (pids : list Z) (pid_last
             | Continued _ => s
             end in
           let status := if is_fg && (pid =? pid_last) then ev_status e else status in
-          if (count_child <=? count_waited)%nat then mkwres s status false q'
-          else wait_loop q' s gid pids pid_last count_child count_waited status
+          if (count_child <=? length settled)%nat then mkwres s status false q'
+          else wait_loop q' s gid pids pid_last count_child settled status
       end
   end.
 
 Definition wait_fg_job (s : shell) (gid : Z) (pids : list Z) (q : list ev) : wres :=
   match pids with
   | [] => mkwres s 0 false q
-  | _ => wait_loop q s gid pids (last pids 0) (length pids) 0%nat 0
+  | _ => wait_loop q s gid pids (last pids 0) (length pids) [] 0
   end.
 
 (** ---------- jobc.rs: try_wait_bg_jobs (sig_handler_enabled = false)
@@ -255,10 +293,10 @@ Definition poll_pid (gid : Z) (s : shell) (pid : Z) : shell :=
       | None =>
           if memZ pid (m_stop m) then
             mksh (mark_job_member_stopped (tab s) pid gid)
-                 (mkmaps (m_reap m) (set_remove pid (m_stop m)) (m_cont m) (m_kill m))
+                 (mkmaps (m_reap m) (hs_remove pid (m_stop m)) (m_cont m) (m_kill m))
           else if memZ pid (m_cont m) then
             mksh (mark_job_member_continued (tab s) pid gid)
-                 (mkmaps (m_reap m) (m_stop m) (set_remove pid (m_cont m)) (m_kill m))
+                 (mkmaps (m_reap m) (m_stop m) (hs_remove pid (m_cont m)) (m_kill m))
           else s
       end
   end.
